@@ -92,8 +92,9 @@ def finish(args, meta, report, ok):
     if args.keep and ok:
         dst = os.path.join(VERIF, "seeded", args.seed_id)
         os.makedirs(dst, exist_ok=True)
-        shutil.copy(os.path.join(args.src, "patch.diff"), os.path.join(dst, "patch.diff"))
-        shutil.copy(os.path.join(args.src, "demo.py"), os.path.join(dst, "demo.py"))
+        if os.path.realpath(args.src) != os.path.realpath(dst):
+            shutil.copy(os.path.join(args.src, "patch.diff"), os.path.join(dst, "patch.diff"))
+            shutil.copy(os.path.join(args.src, "demo.py"), os.path.join(dst, "demo.py"))
         old = {}
         if os.path.exists(os.path.join(dst, "meta.json")):
             old = json.load(open(os.path.join(dst, "meta.json")))
